@@ -22,7 +22,7 @@ sys.path.insert(0, HERE)
 PROP = {
     'D1': 'C10', 'D2': 'C02', 'D3': 'C17', 'D4': 'C16', 'D5a': 'C19', 'D5b': 'C19', 'D5c': 'C19',
     'D6': 'C09', 'D7': 'C12', 'D9': 'C01', 'D10': 'C07', 'D11': 'C14', 'D13': 'C15', 'D14': 'C14',
-    'D15': 'C14', 'D16': 'C10', 'D17': 'C14',
+    'D15': 'C14', 'D16': 'C10', 'D17': 'C14', 'D23': 'C10',
 }
 
 
@@ -313,6 +313,21 @@ def D16():
         return True, f'raised {type(e).__name__}: {e}'
 
 
+def D23():
+    # a filter_context() that raises must be that task's failure on every backend
+    from vtasks import BadFilter
+    out = {}
+    for backend in ('serial', 'fork', 'spawn'):
+        lab = _lab(None, backend, context={'a': 1})
+        ts = [BadFilter(0), BadFilter(1), BadFilter(2)]
+        try:
+            r = _run(lab, ts)
+            out[backend] = 'returned ' + str(sorted(r.values()))
+        except BaseException as e:
+            out[backend] = 'raised ' + type(e).__name__
+    return any(v != 'returned [0, 2]' for v in out.values()), out
+
+
 def D17():
     # interrupt landing on `future.result()` inside ProcessRunner.wait
     from vtasks import Slow
@@ -338,7 +353,7 @@ def D13():
     return bool(miss), f'missing after unpickle: {miss}'
 
 
-ALL = ['D1', 'D2', 'D3', 'D4', 'D5a', 'D5b', 'D5c', 'D6', 'D7', 'D9', 'D10', 'D11', 'D13', 'D14', 'D15', 'D16', 'D17']
+ALL = ['D1', 'D2', 'D3', 'D4', 'D5a', 'D5b', 'D5c', 'D6', 'D7', 'D9', 'D10', 'D11', 'D13', 'D14', 'D15', 'D16', 'D17', 'D23']
 
 
 def run_one(name):
